@@ -6,6 +6,7 @@ import (
 	"encoding/json"
 	"fmt"
 	"sort"
+	"strings"
 	"time"
 	"unicode/utf8"
 
@@ -15,7 +16,18 @@ import (
 
 var c20Alphabet = []string{"a", "Z", "0", "9", "_", ".", "-", "/", " ", "é", "世", "\xff"}
 
+var c20SpecialKeys = []string{"container.name", "container-id", "container", "container/image", "container state",
+	"duration.seconds", "duration_seconds", "duration", "bytes", "rate", "count-over-time", "label.replace", "sum", "topk", "ip", "vector", "avg_over_time", "first-over-time"}
+
+// words of the grammar that can never be read as a label name inside {...}; function and conversion
+// names (rate, sum, bytes, duration_seconds, ip, ...) are ordinary identifiers unless followed by "("
+var c20Keywords = map[string]bool{}
+
 func init() {
+	for _, w := range strings.Fields(`unwrap by without bool offset on ignoring group_left group_right or and unless
+ json regexp logfmt unpack pattern label_format line_format decolorize distinct drop keep`) {
+		c20Keywords[w] = true
+	}
 	register("C20", "exploration", 5*time.Minute, 30*time.Minute, runC20)
 }
 
@@ -53,7 +65,7 @@ func runC20(r *vk.Run) {
 		"non-trivial = the key is not already a valid label name (distinct keys counted). phase docker: random inventories whose containers carry Docker label k=v, " +
 		"selector {sanitised(k)=\"v\"} (sanitised by the harness's own model) must open exactly the containers carrying it. phase json: key k of a JSON line must appear as label sanitised(k) after bare `| json`.")
 	r.Assume("label-name validity is [A-Za-z_][A-Za-z0-9_]*", "leading digit may be replaced or '_'-prefixed (suite pins prefix)",
-		"keys whose sanitised form is a lexer keyword, collides with another key of the same container or with a built-in container label are excluded (counted)")
+		"keys whose sanitised form is a grammar keyword (by, without, json, drop, ...) or collides with another key of the same container are excluded (counted); function/conversion names (rate, bytes, duration_seconds, ...) and names of built-in container labels are NOT excluded: the Docker label must be addressable under them")
 	r.SetExhaustive(true)
 	n := len(c20Alphabet)
 
@@ -119,6 +131,11 @@ func runC20(r *vk.Run) {
 		for i := 0; i < 4; i++ {
 			keyPool = append(keyPool, randKey(rng, c20Alphabet, 1, 10))
 		}
+		if rng.Chance(1, 4) {
+			// keys whose sanitised name is one of the container's built-in labels or a word the query
+			// language also uses as a function / conversion name
+			keyPool[rng.Intn(len(keyPool))] = vk.Pick(rng, c20SpecialKeys)
+		}
 		var inv []CSpec
 		for i := 0; i < nc; i++ {
 			cs := CSpec{ID: fmt.Sprintf("id%02d", i), Name: fmt.Sprintf("/c%d", i), Image: "img", State: "running", Labels: map[string]string{},
@@ -133,17 +150,23 @@ func runC20(r *vk.Run) {
 		k := vk.Pick(rng, keyPool)
 		v := vk.Pick(rng, vals)
 		_, sk := modelSanitise(k)
-		if reservedWords[sk] {
+		if c20Keywords[sk] {
 			c.Count("excluded_reserved_word", 1)
 			return
+		}
+		if reservedWords[sk] {
+			c.Count("function_name_as_label", 1)
 		}
 		// precondition: no collisions in any container
 		want := []string{}
 		for _, cs := range inv {
-			m, ok := expectedContainerLabels(cs)
-			if !ok {
+			m, keyClash, builtinClash := expectedContainerLabels3(cs)
+			if keyClash {
 				c.Count("excluded_collision", 1)
 				return
+			}
+			if builtinClash {
+				c.Count("docker_label_named_like_builtin", 1)
 			}
 			if hv, has := m[sk]; has && hv == v {
 				want = append(want, cs.ID)
@@ -235,4 +258,6 @@ func runC20(r *vk.Run) {
 	r.Require("keys_enumerated", 20000)
 	r.Require("selector_round_trips", 300)
 	r.Require("selections_nonempty", 50)
+	r.Require("function_name_as_label", 20)
+	r.Require("docker_label_named_like_builtin", 20)
 }
